@@ -1,4 +1,4 @@
-(* C07 property statements (front end only - PARTIAL); proofs live in Proofs/C07.v.
+(* C07 property statements (front end, single- and multi-file - PARTIAL); proofs live in Proofs/C07.v, Proofs/C07Back.v.
 
    What is proved: the model of the front end - TryFrom<&syn::Type>, rename_all_to_case,
    get_field_decorators, parse_struct / parse_enum / parse_type_alias / parse_const, the visitor,
@@ -7,23 +7,29 @@
    there is no domain hypothesis and no recorded class.  parser::parse always returns a ParsedData in
    which every annotated item is either generated or recorded as an error; the edge inputs that used to
    panic and must be diagnosed (Spec/C07Spec.v: containers without type arguments, empty tuple structs /
-   variants) are errors, and a file containing one has a non-empty error list.  Termination of the model
-   is by construction (structural recursion; the one fuelled loop, TargetOsIterator, is shown to have
-   enough fuel in Props/C13.v).
+   variants) are errors, and a file containing one has a non-empty error list.  Since the /repo fix of
+   visitors.rs:401 the same holds in MULTI-FILE mode: the `use`-tree iterator is total (a leaf without a
+   leading path is skipped), so parser::parse with multi_file = true and the parse of a whole workspace
+   always return.  Termination of the model is by construction (structural recursion; the fuelled loops -
+   TargetOsIterator, Props/C13.v; ItemUseIter, here - are shown to have enough fuel).
+
+   The back-end sites repaired in /repo are pinned: go.rs:315 (the receiver name is a VALUE: the first
+   character lower-cased), kotlin.rs:183 / swift.rs:268 (write_const is an Err naming the constant, for
+   every constant), scala.rs:131 (begin_file is an Err exactly for the empty package).
 
    What is NOT proved (exercised by checks/c07.py on the real binary and recorded in
    KNOWN_FINDINGS.jsonl only):
-     - the six back ends' partial operations: kotlin.rs:183 and swift.rs:268 (todo!() for consts),
-       scala.rs:131 (no package), go.rs:315 (byte-slicing of the enum name),
-       go.rs:301, go.rs:594, python.rs:368, typescript.rs:137, typescript.rs:276;
+     - the remaining partial operations of the six back ends: go.rs:301, go.rs:594, python.rs:368,
+       typescript.rs:137, typescript.rs:276 (scala.rs:161 is unreachable: Scala never writes consts);
      - topsort's dependency recursion (Model/Topsort.v fuel exhaustion = real stack overflow);
-     - multi-file mode: visitors.rs:401 (`use foo;`), import reconciliation;
+     - multi-file mode: import reconciliation, the writer;
      - the CLI: directory walk, reading files, the collector thread (cli/src/parse.rs), writing output;
      - what no model exhibits: real dead-locks, stack depth, OS errors. *)
 From Coq Require Import String.
 From TS Require Import Model.Str Model.Outcome Model.Unicode Model.Syntax Model.Attrs Model.Rename Model.Types Model.Parse.
+From TS Require Import Model.MultiFile Model.Lang.Common Model.Lang.Kotlin Model.Lang.Swift Model.Lang.Scala Model.Lang.Go.
 From TS Require Import Spec.TargetOsRule Spec.C03Spec Spec.C07Spec.
-From TS Require Proofs.FrontItems Proofs.C07.
+From TS Require Proofs.FrontItems Proofs.C07 Proofs.C07Back.
 
 (* every type expression is translated or rejected, never a panic *)
 Theorem C07_type_parser_never_panics :
@@ -207,6 +213,121 @@ Theorem C07_rename_22_nonascii_fixed :
      (Proofs.C07.st1 [Proofs.C07.a_camel] (Proofs.C07.fld [] (201%N :: lit "toile_du_nord") Proofs.C07.t_u8))) = Some [201%N :: lit "toileDuNord"].
 Proof. exact Proofs.C07.C07_rename_22_nonascii_fixed. Qed.
 Print Assumptions C07_rename_22_nonascii_fixed.
+
+(* ---------------------------------------------------------------- multi-file mode (visitors.rs ItemUseIter) *)
+
+(* visit_item_use / parse_import: for EVERY use tree (any nesting of paths, groups, globs, renames) and every
+   Unicode table the iterator returns a list of imports - no panic, and its fuel suffices *)
+Theorem C07_use_import_total :
+  forall (uc : unicode) (own : str) (t : use_tree), exists found, parse_import uc own t = Ok found.
+Proof. exact Proofs.C07Back.parse_import_total. Qed.
+Print Assumptions C07_use_import_total.
+
+(* parser::parse with multi_file = true never panics and always returns: every file, crate name, ignore list,
+   hash order of the import set, --target-os list *)
+Theorem C07_multi_file_front_end_total_partial :
+  forall (uc : unicode) (tstr : str -> option ty) (T : list str) (own : str) (ign : list str)
+         (ho_file : list imported -> list imported) (f : file),
+    exists r, parse_file_multi uc tstr T own ign ho_file f = Ok r.
+Proof. exact Proofs.C07Back.parse_file_multi_total. Qed.
+Print Assumptions C07_multi_file_front_end_total_partial.
+
+(* the per-file parsers of a whole workspace (files that syn parses) all deliver: nothing is left for the
+   collector to wait for *)
+Theorem C07_workspace_parse_total :
+  forall (uc : unicode) (T ign : list str) (ho_file : list imported -> list imported) (ws : list ws_entry),
+    exists arrivals, parse_workspace uc T ign ho_file ws = Ok arrivals.
+Proof. exact Proofs.C07Back.parse_workspace_total. Qed.
+Print Assumptions C07_workspace_parse_total.
+
+(* regression pins of visitors.rs:401 (was expect("base name not in use statement?") on the walker thread = hang):
+   use foo;   use {a, b};   use *;   use {{Foo}, *, a as b};   import nothing *)
+Theorem C07_visitors_401_fixed :
+  parse_import uc_exec Proofs.C07Back.w_own (UName (lit "foo")) = Ok [] /\
+  parse_import uc_exec Proofs.C07Back.w_own (UGroup [UName (lit "a"); UName (lit "b")]) = Ok [] /\
+  parse_import uc_exec Proofs.C07Back.w_own UGlob = Ok [] /\
+  parse_import uc_exec Proofs.C07Back.w_own (UGroup [UGroup [UName (lit "Foo")]; UGlob; URename (lit "a") (lit "b")]) = Ok [].
+Proof. exact Proofs.C07Back.C07_visitors_401_fixed. Qed.
+Print Assumptions C07_visitors_401_fixed.
+(* use {a::B, c};  and  use other_crate::{Thing, sub::*};  still import what has a path *)
+Theorem C07_visitors_401_fixed_keeps_paths :
+  parse_import uc_exec Proofs.C07Back.w_own (UGroup [UPath (lit "a") (UName (lit "B")); UName (lit "c")]) = Ok [Proofs.C07Back.w_imp "a" "B"] /\
+  parse_import uc_exec Proofs.C07Back.w_own (UPath (lit "other_crate") (UGroup [UName (lit "Thing"); UPath (lit "sub") UGlob])) =
+    Ok [Proofs.C07Back.w_imp "other_crate" "*"; Proofs.C07Back.w_imp "other_crate" "Thing"].
+Proof. exact Proofs.C07Back.C07_visitors_401_fixed_keeps_paths. Qed.
+Print Assumptions C07_visitors_401_fixed_keeps_paths.
+(* the witness file `use foo; #[typeshare] struct S { a: u8 }` of crate mycrate: one struct, no error, no import *)
+Theorem C07_visitors_401_fixed_file :
+  match parse_file_multi uc_exec Proofs.C07.no_tstr [] Proofs.C07Back.w_own [] (fun l => l) Proofs.C07Back.w_use_file with
+  | Ok (Some pd) => List.length (p_structs pd) = 1%nat /\ p_errors pd = [] /\ p_imports pd = []
+  | _ => False
+  end.
+Proof. exact Proofs.C07Back.C07_visitors_401_fixed_file. Qed.
+Print Assumptions C07_visitors_401_fixed_file.
+
+(* ---------------------------------------------------------------- back-end sites repaired in /repo *)
+
+(* go.rs:315: whenever Go generates a tagged enum, the receiver name is the first character of the Rust name
+   lower-cased with char::to_lowercase ("" for an empty name) - for every Unicode table, configuration and enum *)
+Theorem C07_go_receiver_value :
+  forall (uc : unicode) (cfg : go_config) (custom : list str) (tag content : str) (sh : eshared) (s : go_state) ds s',
+    go_enum_decls_of uc cfg custom (EAlgebraic tag content sh) s = Ok (ds, s') ->
+    exists anon t, ds = anon ++ [GOTagged t] /\
+                   gt_short t = match original (eid sh) with [] => [] | c :: _ => u_lower uc c end.
+Proof. exact Proofs.C07Back.go_short_value. Qed.
+Print Assumptions C07_go_receiver_value.
+(* regression pin: enum Étoile / İx / ǅx / 中 / Plain / (empty name) with tag and content, --lang go: the receivers
+   are é, i + U+0307, ǆ, 中, p, "", and the file of Étoile is generated (was a byte-slice panic, exit 101) *)
+Theorem C07_go_315_fixed :
+  Proofs.C07Back.w_go_short (201%N :: lit "toile") = Some [233%N] /\
+  Proofs.C07Back.w_go_short (304%N :: lit "x") = Some [105%N; 775%N] /\
+  Proofs.C07Back.w_go_short (453%N :: lit "x") = Some [454%N] /\
+  Proofs.C07Back.w_go_short [20013%N] = Some [20013%N] /\
+  Proofs.C07Back.w_go_short (lit "Plain") = Some (lit "p") /\
+  Proofs.C07Back.w_go_short [] = Some [] /\
+  is_ok (go_generate uc_exec Proofs.C07Back.w_go_cfg (Proofs.C07Back.w_pd (Proofs.C07Back.w_tagged (201%N :: lit "toile")))) = true.
+Proof. exact Proofs.C07Back.C07_go_315_fixed. Qed.
+Print Assumptions C07_go_315_fixed.
+
+(* kotlin.rs:183 / swift.rs:268: write_const is the error "constants are not supported ..: cannot generate `NAME`"
+   for EVERY constant, configuration (and Swift state) - never a panic *)
+Theorem C07_kotlin_const_is_error :
+  forall (cfg : kt_config) (c : rconst), kt_decl_of cfg (ItConst c) = Err (EConstUnsupported (original (cid c))).
+Proof. exact Proofs.C07Back.kt_const_is_error. Qed.
+Print Assumptions C07_kotlin_const_is_error.
+Theorem C07_swift_const_is_error :
+  forall (uc : unicode) (cfg : sw_config) (c : rconst) (st : sw_state),
+    sw_decl_of uc cfg (ItConst c) st = Err (EConstUnsupported (original (cid c))).
+Proof. exact Proofs.C07Back.sw_const_is_error. Qed.
+Print Assumptions C07_swift_const_is_error.
+(* regression pins: #[typeshare] const X: u32 = 5;  --lang kotlin / swift (was todo!(), exit 101) *)
+Theorem C07_kotlin_183_fixed :
+  kt_generate uc_exec Proofs.C07Back.w_kt_cfg Proofs.C07Back.w_const_pd = Err (EConstUnsupported (lit "X")).
+Proof. exact Proofs.C07Back.C07_kotlin_183_fixed. Qed.
+Print Assumptions C07_kotlin_183_fixed.
+Theorem C07_swift_268_fixed :
+  sw_generate uc_exec Proofs.C07Back.w_sw_cfg Proofs.C07Back.w_const_pd = Err (EConstUnsupported (lit "X")).
+Proof. exact Proofs.C07Back.C07_swift_268_fixed. Qed.
+Print Assumptions C07_swift_268_fixed.
+
+(* scala.rs:131: begin_file fails exactly for the empty package, with the configuration error ... *)
+Theorem C07_scala_package_error_iff :
+  forall cfg : sc_config,
+    (sc_package cfg = [] -> sc_begin_file cfg = Err EPackageRequired) /\
+    (sc_package cfg <> [] -> is_ok (sc_begin_file cfg) = true).
+Proof. exact Proofs.C07Back.sc_begin_file_error_iff. Qed.
+Print Assumptions C07_scala_package_error_iff.
+(* ... which is the outcome of the whole generation, whatever the items *)
+Theorem C07_scala_no_package_is_error :
+  forall (uc : unicode) (cfg : sc_config) (pd : parsed), sc_package cfg = [] -> sc_generate uc cfg pd = Err EPackageRequired.
+Proof. exact Proofs.C07Back.sc_no_package_is_error. Qed.
+Print Assumptions C07_scala_no_package_is_error.
+(* regression pin: #[typeshare] struct S { a: u8 }  --lang scala without / with --scala-package p (was panic!, exit 101) *)
+Theorem C07_scala_131_fixed :
+  sc_generate uc_exec (Proofs.C07Back.w_sc_cfg []) Proofs.C07Back.w_struct_pd = Err EPackageRequired /\
+  is_ok (sc_generate uc_exec (Proofs.C07Back.w_sc_cfg (lit "p")) Proofs.C07Back.w_struct_pd) = true.
+Proof. exact Proofs.C07Back.C07_scala_131_fixed. Qed.
+Print Assumptions C07_scala_131_fixed.
 
 (* non-vacuity: a file with a camelCase struct, nested containers, skipped and unannotated copies of
    the former panic triggers, three LIVE ones (empty tuple struct, Vec<Box>, HashMap<u8>), an enum inside
